@@ -181,6 +181,7 @@ def inline_call(caller, bi, callee):
         stmts.append({"k": "assign", "place": pl, "rv": {"k": "use", "op": a}, "span": span, "inlined_arg": True})
     dest, cont, unwind = t["dest"], t.get("t"), t.get("unwind")
     caller["blocks"][bi]["term"] = {"k": "goto", "t": bbase, "span": span, "inlined_call": callee["path"]}
+    new_blocks = []
     for blk in callee["blocks"]:
         nb = _remap(blk, lmap, bmap)
         nb["i"] = blk["i"] + bbase
@@ -193,7 +194,50 @@ def inline_call(caller, bi, callee):
             nb["term"] = {"k": "goto", "t": cont, "span": tt.get("span")} if cont is not None else {"k": "unreachable", "span": tt.get("span")}
         elif tt["k"] == "resume" and unwind is not None:
             nb["term"] = {"k": "goto", "t": unwind, "span": tt.get("span")}
-        caller["blocks"].append(nb)
+        new_blocks.append(nb)
+    # a parameter that is a reference to one of the caller's variables, taken right at the call (`helper(.., &mut prev)`) and
+    # only ever dereferenced in the helper, *is* that variable: `*param` is written as the variable itself, so state a
+    # helper updates through `&mut` is again a plain assignment to the caller's local
+    for k, a in enumerate(t["args"]):
+        if a.get("k") != "move" or a["place"]["p"]:
+            continue
+        def single_ref(rl):
+            ds = [s_ for bl in caller["blocks"] for s_ in bl["stmts"] if s_["k"] == "assign" and s_["place"]["l"] == rl and not s_["place"]["p"] and not s_.get("inlined_arg")]
+            calls_ = [bl for bl in caller["blocks"] if bl["term"]["k"] == "call" and bl["term"]["dest"]["l"] == rl]
+            if len(ds) != 1 or calls_ or ds[0]["rv"].get("k") != "ref":
+                return None
+            return ds[0]["rv"]["place"]
+        X = single_ref(a["place"]["l"])
+        for _ in range(3):
+            # a reborrow `&mut *r` of a reference that is itself `&mut x`, taken once: the same variable
+            if X is not None and X["p"] and X["p"][0].get("k") == "deref" and X["l"] > caller.get("arg_count", 0):
+                Y = single_ref(X["l"])
+                if Y is None:
+                    break
+                X = {"l": Y["l"], "p": list(Y["p"]) + X["p"][1:], "ty": X.get("ty")}
+            else:
+                break
+        if X is None or any(pr.get("k") in ("deref", "index") for pr in X["p"]) or X["l"] == 0:
+            continue
+        pl_ = lbase + k + 1
+        uses = []
+
+        def walk(x, uses=uses, pl_=pl_):
+            if isinstance(x, list):
+                for y in x:
+                    walk(y)
+            elif isinstance(x, dict):
+                if "l" in x and isinstance(x.get("p"), list) and x["l"] == pl_:
+                    uses.append(x)
+                for v in x.values():
+                    walk(v)
+        walk(new_blocks)
+        if not uses or not all(u["p"] and u["p"][0].get("k") == "deref" for u in uses):
+            continue
+        for u in uses:
+            u["l"] = X["l"]
+            u["p"] = list(X["p"]) + u["p"][1:]
+    caller["blocks"].extend(new_blocks)
 
 
 def inline_new_functions(raw, base, log):
